@@ -79,7 +79,15 @@ class EIG(BaseRoutine):
         kvxopt.matrix
             state matrix
         """
-        dae = self.system.dae
+        system = self.system
+        dae = system.dae
+
+        # linearize at the current operating point with the current time constants:
+        # the time-domain simulation updates the Jacobians lazily, and parameters
+        # (including time constants) may have been changed since the last update
+        if system.TDS.initialized:
+            system._store_tf(system.exist.tds)
+            system.j_update(models=system.exist.pflow_tds)
 
         self.find_zero_states()
         self.x_name = np.array(dae.x_name)
